@@ -93,7 +93,10 @@ def base_model(variant=0):
     m.add_derived("dv", f_mul, args=["x", "k"])
     m.add_data("D", pd.Series({"a": 2.0, "b": 1.0}))
     m.add_derived("dd", f_data, args=["D", "x"])
-    m.add_reaction("v1", f_mul, args=["x", "k"], stoichiometry={"x": -1, "y": 1})
+    shared = {"x": -1, "y": 1}  # one dictionary object used for two declarations (variant 1): the model must not keep it
+    m.add_reaction("v1", f_mul, args=["x", "k"], stoichiometry=shared if variant == 1 else {"x": -1, "y": 1})
+    if variant == 1:
+        m.add_reaction("v1b", f_mul, args=["y", "k"], stoichiometry=shared)
     m.add_reaction("v2", f_mul, args=["y", "dp"], stoichiometry={"y": -1})
     # every kind of coefficient the cache pre-computes or defers: parameter name, parameter-computed, state-computed
     m.add_reaction(
@@ -632,6 +635,28 @@ def check(case):
     if opname.startswith("Q") and not _ceq(after, before):
         diff = [k for k in before if not _ceq(before[k], after[k])]
         return bad("query-changed-model", "query-changed-content", f"a query changed {diff}: before {str([before[k] for k in diff])[:300]} after {str([after[k] for k in diff])[:300]}")
+    # 2c. an edit reaches only the reactions it names (or, when a variable goes, the reactions that list it)
+    rb = {r[0]: r for r in before["reactions"]}
+    ra = {r[0]: r for r in after["reactions"]}
+    changed = {n for n in set(rb) | set(ra) if not _ceq(rb.get(n), ra.get(n))}
+    a_ = op[1]
+    if opname in ("add_reaction", "update_reaction", "remove_reaction"):
+        allowed = {a_.get("name")}
+    elif opname == "make_parameter_dynamic":
+        allowed = set(a_.get("stoich") or {})
+    elif opname in ("make_variable_static", "remove_variable"):
+        gone = a_.get("name")
+        allowed = {n for n, r in rb.items() if any(k == gone for k, _v in r[3])}
+    elif opname in ("remove_variables",):
+        gone = set(a_.get("names") or a_.get("variables") or [])
+        allowed = {n for n, r in rb.items() if any(k in gone for k, _v in r[3])}
+    else:
+        allowed = set() if opname.startswith(("Q", "add_", "update_", "scale_", "remove_", "make_")) else changed
+    if opname in ("add_reactions", "update_reactions", "remove_reactions") or "names" in a_ or "reactions" in a_:
+        allowed = changed  # plural forms name several reactions: covered by the fresh-model differential
+    if not changed <= allowed:
+        return bad("edit-leaked", "edit-changed-other-reactions", f"reactions {sorted(changed - allowed)} changed although the operation names {sorted(allowed)}: "
+                   f"{[(rb.get(n), ra.get(n)) for n in sorted(changed - allowed)][:2]}")
     # 3a. acceptance
     if expect == "reject" and raised is None:
         return bad("bad-edit-accepted", "name-clash-accepted", "edit must be rejected (name in use / time / unknown target) but was accepted")
